@@ -90,6 +90,22 @@ def handle : List String → Option String
         if fragile eps (pre3 mode T csS csD rnd v0 v1 v2) then "?"
         else if csS.valid p then toString ((p.1 * csS.n1 + p.2.1) * csS.n2 + p.2.2) else "-1"
       pure (s!"{csD.n0} {csD.n1} {csD.n2} | " ++ " ".intercalate cells)) rest
+  | "phist" :: rest => run (do
+      -- phist nops (S <t?> [tx ty] <σ?> [σ] <rot?> [ang] | V <iso> tx ty σ ang)* n pts : one AffineTransformation(2) object
+      let ops ← P.list (do
+        let k ← P.tok
+        if k = "S" then (do
+          let ht ← P.bool; let t ← (if ht then (do let v ← pV2; pure (some v)) else pure none)
+          let hs ← P.bool; let σ ← (if hs then (do let v ← P.rat; pure (some v)) else pure none)
+          let hr ← P.bool; let r ← (if hr then (do let a ← P.rat; pure (some (cosT a, sinT a))) else pure none)
+          pure (POp.set t σ r))
+        else (do
+          let iso ← P.bool; let t ← pV2; let σ ← P.rat; let a ← P.rat
+          pure (POp.vec iso t σ (cosT a) (sinT a))))
+      let pts ← P.list pV2; P.done
+      let p := prun (⟨⟨0, 0⟩, 1, 1, 0⟩ : PState Rat) ops
+      let T := Affine2.mk' p.t p.σ p.c p.s
+      pure (showV2s [p.t] ++ " " ++ showRat p.σ ++ " | " ++ showM2 T.R ++ " | " ++ showV2s (pts.map T.call))) rest
   | "taff2" :: dir :: rest => run (do
       -- taff2 <call|inv> <mode> <rounding> tx ty σ ang n (x y)* : typed evaluation (result wrapped in the point type)
       let mode ← pMode; let rnd ← pRounding; let T ← pAffine2; let pts ← P.list pV2; P.done
